@@ -111,6 +111,17 @@ pub fn profile(property: &str) -> GenParams {
             params.counters = vec![1000, 1000, 10, 4];
             params.mix = [45, 8, 6, 8, 1, 40, 0, 0, 0, 3];
         }
+        "C06-contended" => {
+            params.limits = vec![60, 100, 300];
+            params.ttl = false;
+            params.stall = false;
+            params.max_ops = 50;
+            params.counters = vec![1 << 22];
+            params.hash_modes = vec![HashMode::Identity];
+            params.cmd_bufs = vec![8];
+            params.noise_readers = vec![2, 3, 5];
+            params.mix = [50, 6, 6, 6, 1, 30, 0, 0, 0, 0];
+        }
         "C07" => {
             params.limits = vec![100, 1000, 4000];
             params.mix = [45, 10, 15, 10, 1, 3, 12, 3, 6, 3];
@@ -176,7 +187,11 @@ pub fn seq_campaigns(property: &str) -> Vec<SeqCampaign> {
         "C03" => vec![main("seq-main", 2500, 50_000, nt_c03, RULE_C03)],
         "C04" => vec![main("seq-main", 3000, 50_000, nt_c04, RULE_C04)],
         "C05" => vec![main("seq-main", 3000, 50_000, nt_c05, RULE_C05)],
-        "C06" => vec![main("seq-main", 3000, 60_000, nt_c06, RULE_C06)],
+        "C06" => vec![
+            main("seq-main", 3000, 60_000, nt_c06, RULE_C06),
+            SeqCampaign { name: "seq-contended", params: profile("C06-contended"), policy: Policy::default(), cases_quick: 250, cases_thorough: 4000, nt: |s| s.evictions + s.rejected_space >= 1,
+                rule: "as seq-main, but 2-5 background threads hammer reads of three dedicated keys with saturated estimates for the whole case (pool, hand-over channel, access consumer and the sketch's lock are busy while the worker decides); the estimates of all other keys are frozen (read while the readers are paused and the consumer idle; 4 Mi counters so that no ageing happens), so every sampled and incoming estimate seen by admission must still equal the pre-read one; non-trivial = a put needed eviction or was refused for space" },
+        ],
         "C07" => vec![
             main("seq-main", 4000, 80_000, nt_c07, RULE_C07),
             probe("probe-F6", profile("C07"), Policy { allow_put_on_expired_unswept: true, ..Policy::default() }),
